@@ -340,9 +340,14 @@ def check(ctx):
                 gtxt = " ".join(canon(t_, neg=not p_) for t_, p_ in guard_of(prog, fn, c))
                 if f"np.isfinite({vparams[0]})" not in gtxt and f"np.isnan({vparams[0]})" not in gtxt:
                     okc, why = False, ""
-        elif fn is init and canon(arg) == "self.x0":
-            # self.x0: validator result[0] or a uniform draw between the validated plausible bounds
+        elif fn is init and arg is not None:
+            # self.x0: validator result[0] or a uniform draw between the validated plausible bounds; the validated
+            # plausible bounds themselves (the shape probe of the callable, wherever it is made)
             good = val_ok.get(0, False)
+            parts_ = [arg]
+            if isinstance(arg, ast.Call) and call_name(arg) in ("np.vstack", "np.concatenate", "np.row_stack") and arg.args and isinstance(arg.args[0], (ast.Tuple, ast.List)):
+                parts_ = list(arg.args[0].elts)
+            is_x0_ = canon(arg) == "self.x0"
             from .common import pos as _pos
 
             ran_before = set()
@@ -374,7 +379,7 @@ def check(ctx):
                     return next(iter(os_)) if len(os_) == 1 else None
                 return None
 
-            for m, t, v, s, k in attr_stores(prog, R.bads, "x0"):
+            for m, t, v, s, k in (attr_stores(prog, R.bads, "x0") if is_x0_ else []):
                 if m is not init:
                     good = False
                 if val_origin(m, v, k) == 0:
@@ -388,6 +393,8 @@ def check(ctx):
                     good = good and val_origin(m, lo) == 3 and val_origin(m, hi) == 4 and val_ok.get(3, False) and val_ok.get(4, False)
                 else:
                     good = False
+            if not is_x0_:
+                good = all(val_origin(init, e_) in (3, 4) and val_ok.get(val_origin(init, e_), False) for e_ in parts_)
             okc, why = good, "validated x0 or a uniform draw between validated plausible bounds"
         ctx.check(okc, fn, c, f"constraint callable sees {why}", "the user's constraint callable can be called at a point that is not known to lie inside the hard bounds", construct=f"{canon(c.func)}({canon(arg)[:60]})")
     # result x
